@@ -188,3 +188,483 @@ Qed.
 
 Lemma kind_lst_eol : kind_ (lst []) = Err EOL.
 Proof. reflexivity. Qed.
+
+(* ---------- Bytes() (signature, keys) ---------- *)
+
+Lemma enc_str_nonbyte c : (forall x, c = [x] -> 128 <= x) -> enc_str c = enc_head 128 183 (lenN c) ++ c.
+Proof.
+  intros Hc. destruct c as [|x [|y t]]; try reflexivity.
+  cbn [enc_str]. specialize (Hc x eq_refl). destruct (N.ltb_spec x 128); [lia|reflexivity].
+Qed.
+
+Lemma byteslice_lst_inv i b s' :
+  bytesb i = true -> byteslice_ (lst i) = Ok (b, s') -> exists i', i = enc_str b ++ i' /\ s' = lst i'.
+Proof.
+  intros Hb. unfold byteslice_.
+  destruct (kind_ (lst i)) as [[[[k size] bv] s1]|] eqn:E; [|discriminate].
+  destruct (kind_lst_inv _ _ _ _ _ Hb E) as (h & i1 & -> & -> & Hh & H64 & Hspec & Hsz).
+  destruct k; cbn [bytes_ hdr_spec] in *.
+  - destruct Hspec as (-> & Hbv & ->). intros E2; inversion E2; subst. exists i1. split; [|reflexivity].
+    cbn [enc_str]. destruct (N.ltb_spec bv 128); [reflexivity|lia].
+  - destruct Hspec as [-> ->].
+    destruct (read_full size (lst i1)) as [[c s2]|] eqn:E3; [|discriminate].
+    destruct (read_full_lst_inv _ _ _ _ E3) as (i2 & -> & Hl & ->).
+    intros E4. exists i2.
+    assert (G : b = c /\ s' = lst i2 /\ (forall x, c = [x] -> 128 <= x)).
+    { destruct c as [|x [|y t]].
+      - inversion E4. split; [reflexivity|]. split; [reflexivity|]. intros ? ?; discriminate.
+      - destruct (N.ltb_spec x 128); [discriminate|]. inversion E4.
+        split; [reflexivity|]. split; [reflexivity|]. intros ? E5; inversion E5; subst; assumption.
+      - inversion E4. split; [reflexivity|]. split; [reflexivity|]. intros ? ?; discriminate. }
+    destruct G as (-> & -> & Hc). split; [|reflexivity].
+    rewrite (enc_str_nonbyte c Hc), Hl, <- app_assoc. reflexivity.
+  - discriminate.
+Qed.
+
+Lemma byteslice_lst_ok b i' : lenN b < W64 -> byteslice_ (lst (enc_str b ++ i')) = Ok (b, lst i').
+Proof.
+  intros H64. unfold byteslice_.
+  assert (Hcases : (exists x, b = [x] /\ x < 128) \/ (forall x, b = [x] -> 128 <= x)).
+  { destruct b as [|x [|y t]].
+    - right. intros ? ?; discriminate.
+    - destruct (N.lt_ge_cases x 128); [left; exists x; tauto|right].
+      intros ? E; inversion E; subst; assumption.
+    - right. intros ? ?; discriminate. }
+  destruct Hcases as [(x & -> & Hx)|Hc].
+  - cbn [enc_str]. destruct (N.ltb_spec x 128); [|lia].
+    change ([x] ++ i') with ([x] ++ [] ++ i').
+    rewrite (kind_lst_ok KByte 0 x [x] [] i'); [reflexivity| |unfold W64; lia|reflexivity].
+    cbn. auto.
+  - rewrite (enc_str_nonbyte b Hc), <- app_assoc.
+    rewrite (kind_lst_ok KString (lenN b) 0 (enc_head 128 183 (lenN b)) b i');
+      [|cbn; auto|exact H64|reflexivity].
+    cbn [bytes_]. rewrite read_full_lst_ok.
+    destruct b as [|x [|y t]]; try reflexivity.
+    specialize (Hc x eq_refl). destruct (N.ltb_spec x 128); [lia|reflexivity].
+Qed.
+
+Lemma byteslice_lst_eol : byteslice_ (lst []) = Err EOL.
+Proof. reflexivity. Qed.
+
+(* ---------- uint64 (seq) ---------- *)
+
+Lemma be_bytes_byte x : x <> 0 -> x < 256 -> be_bytes x = [x].
+Proof.
+  intros H0 H. rewrite <- (be_decode_single x) at 1. apply be_decode_bytes.
+  - cbn. unfold byteb. rewrite andb_true_r. apply N.ltb_lt. exact H.
+  - cbn. apply negb_true_iff, N.eqb_neq. exact H0.
+Qed.
+
+Lemma be_decode_ge256 b0 b1 t : b0 <> 0 -> 256 <= be_decode (b0 :: b1 :: t).
+Proof.
+  intros H. pose proof (be_decode_pos b0 (b1 :: t) H) as Hp. rewrite lenN_cons in Hp.
+  assert (256 ^ 1 <= 256 ^ (1 + lenN t)) by (apply N.pow_le_mono_r; lia).
+  change (256 ^ 1) with 256 in *. lia.
+Qed.
+
+Lemma uint_lst_inv i v s' :
+  bytesb i = true -> uint_ 64 (lst i) = Ok (v, s') ->
+  exists i', i = enc_uint v ++ i' /\ s' = lst i' /\ v < W64.
+Proof.
+  intros Hb. unfold uint_.
+  destruct (kind_ (lst i)) as [[[[k size] bv] s1]|] eqn:E; [|discriminate].
+  destruct (kind_lst_inv _ _ _ _ _ Hb E) as (h & i1 & -> & -> & Hh & H64 & Hspec & Hsz).
+  pose proof (bytesb_app_r _ _ Hb) as Hb1.
+  destruct k; cbn [hdr_spec] in *.
+  - destruct Hspec as (-> & Hbv & ->). destruct (N.eqb_spec bv 0); [discriminate|].
+    intros E2; inversion E2; subst. exists i1. split; [|split; [reflexivity|unfold W64; lia]].
+    unfold enc_uint. rewrite be_bytes_byte by lia. cbn [enc_str].
+    destruct (N.ltb_spec v 128); [reflexivity|lia].
+  - destruct Hspec as [-> ->]. change (64 / 8) with 8.
+    destruct (N.ltb_spec 8 size); [discriminate|]. unfold read_uint.
+    destruct (N.eqb_spec size 0) as [->|Hn0].
+    { cbn. intros E2; inversion E2; subst. exists i1. split; [reflexivity|]. split; [reflexivity|reflexivity]. }
+    destruct (N.eqb_spec size 1) as [->|Hn1].
+    { destruct (read_byte (lst i1)) as [[x s2]|e] eqn:E3; [|destruct e; discriminate].
+      apply read_byte_inv in E3 as (_ & Hi & Hs). cbn [inp lst] in Hi.
+      change (0 <? 1) with true. cbn [andb].
+      destruct (N.ltb_spec x 128); [discriminate|]. intros E2; inversion E2; subst v s'.
+      assert (Hx : x < 256).
+      { rewrite Hi in Hb1. cbn in Hb1. apply andb_true_iff in Hb1 as [Hx _]. apply N.ltb_lt. exact Hx. }
+      exists (inp s2). split; [|split; [|unfold W64; lia]].
+      - rewrite Hi. unfold enc_uint. rewrite be_bytes_byte by lia.
+        rewrite enc_str_nonbyte; [reflexivity|]. intros ? E5; inversion E5; subst; assumption.
+      - rewrite Hs at 1. rewrite Hi. apply (adv_lst [x] (inp s2)). }
+    destruct (read_full size (lst i1)) as [[c s2]|e] eqn:E3; [|destruct e; discriminate].
+    destruct (read_full_lst_inv _ _ _ _ E3) as (i2 & -> & Hl & ->).
+    destruct c as [|b0 [|b1 t]].
+    { cbn in Hl. lia. }
+    { cbn in Hl. lia. }
+    destruct (N.eqb_spec b0 0); [discriminate|].
+    pose proof (be_decode_ge256 b0 b1 t ltac:(assumption)) as Hge.
+    set (c := b0 :: b1 :: t) in *.
+    destruct (N.ltb_spec 0 size); [|lia]. cbn [andb].
+    destruct (N.ltb_spec (be_decode c) 128); [lia|].
+    intros E2; inversion E2; subst v s'. exists i2.
+    pose proof (bytesb_app_l _ _ Hb1) as Hbc.
+    split; [|split; [reflexivity|]].
+    + unfold enc_uint. rewrite be_decode_bytes; [|exact Hbc|].
+      * rewrite enc_str_nonbyte; [rewrite Hl, <- app_assoc; reflexivity|].
+        intros ? E5; discriminate.
+      * cbn. apply negb_true_iff, N.eqb_neq. assumption.
+    + apply be_decode_lt_64; [exact Hbc|lia].
+  - discriminate.
+Qed.
+
+Lemma uint_lst_ok v i' : v < W64 -> uint_ 64 (lst (enc_uint v ++ i')) = Ok (v, lst i').
+Proof.
+  intros H64. unfold uint_, enc_uint.
+  pose proof (be_bytes_decode v) as Hd. pose proof (be_bytes_hd v) as Hhd.
+  pose proof (be_bytes_bytes v) as Hbb. pose proof (be_bytes_len_64 v H64) as Hl8.
+  destruct (be_bytes v) as [|x [|y t]] eqn:Ebe.
+  - (* v = 0 *)
+    subst v. change (enc_str []) with ([128] ++ []). rewrite <- app_assoc.
+    rewrite (kind_lst_ok KString 0 0 [128] [] i'); [|cbn; auto|unfold W64; lia|reflexivity].
+    cbn. reflexivity.
+  - rewrite be_decode_single in Hd. subst x. destruct Hhd as [Hv0 _].
+    assert (Hv : v < 256).
+    { cbn in Hbb. apply andb_true_iff in Hbb as [Hx _]. apply N.ltb_lt. exact Hx. }
+    destruct (N.lt_ge_cases v 128) as [Hs|Hs].
+    + cbn [enc_str]. destruct (N.ltb_spec v 128); [|lia].
+      change ([v] ++ i') with ([v] ++ [] ++ i').
+      rewrite (kind_lst_ok KByte 0 v [v] [] i'); [|cbn; auto|unfold W64; lia|reflexivity].
+      destruct (N.eqb_spec v 0); [lia|]. reflexivity.
+    + rewrite enc_str_nonbyte; [|intros ? E5; inversion E5; subst; assumption].
+      rewrite <- app_assoc.
+      rewrite (kind_lst_ok KString (lenN [v]) 0 (enc_head 128 183 (lenN [v])) [v] i');
+        [|cbn; auto|unfold W64; cbn; lia|reflexivity].
+      change (lenN [v]) with 1. change (64 / 8 <? 1) with false. cbn iota.
+      unfold read_uint. change (1 =? 0) with false. change (1 =? 1) with true. cbn iota.
+      rewrite (read_byte_ok (lst ([v] ++ i')) v i'); [|apply room_lst; rewrite lenN_app, lenN_cons, lenN_nil; lia|reflexivity].
+      replace (adv 1 i' (lst ([v] ++ i'))) with (lst i') by (symmetry; apply (adv_lst [v] i')).
+      change (0 <? 1) with true. cbn [andb].
+      destruct (N.ltb_spec v 128); [lia|]. reflexivity.
+  - set (c := x :: y :: t) in *. destruct Hhd as [Hx0 _].
+    rewrite enc_str_nonbyte; [|intros ? E5; discriminate]. rewrite <- app_assoc.
+    rewrite (kind_lst_ok KString (lenN c) 0 (enc_head 128 183 (lenN c)) c i');
+      [|cbn; auto|unfold W64; lia|reflexivity].
+    change (64 / 8) with 8. destruct (N.ltb_spec 8 (lenN c)); [lia|].
+    assert (Hlc : lenN c = 2 + lenN t). { unfold c. rewrite !lenN_cons. lia. }
+    unfold read_uint.
+    destruct (N.eqb_spec (lenN c) 0); [lia|]. destruct (N.eqb_spec (lenN c) 1); [lia|].
+    rewrite read_full_lst_ok. unfold c at 1.
+    destruct (N.eqb_spec x 0); [contradiction|].
+    pose proof (be_decode_ge256 x y t Hx0) as Hge. fold c in Hge. rewrite Hd in *.
+    destruct (N.ltb_spec 0 (lenN c)); [|lia]. cbn [andb].
+    destruct (N.ltb_spec v 128); [lia|]. reflexivity.
+Qed.
+
+(* ---------- Raw() (values) ---------- *)
+
+Lemma raw_value_frame v :
+  raw_value v <-> exists k size bv h c, hdr_spec k size bv h /\ size < W64 /\ lenN c = size /\ v = h ++ c.
+Proof.
+  split.
+  - intros [(x & -> & Hx)|(c & Hc & [->| ->])].
+    + exists KByte, 0, x, [x], []. cbn. split; [auto|]. split; [unfold W64; lia|]. split; reflexivity.
+    + exists KString, (lenN c), 0, (enc_head 128 183 (lenN c)), c. cbn. auto.
+    + exists KList, (lenN c), 0, (enc_head 192 247 (lenN c)), c. cbn. auto.
+  - intros (k & size & bv & h & c & Hspec & H64 & Hl & ->). destruct k; cbn [hdr_spec] in Hspec.
+    + destruct Hspec as (-> & Hbv & ->). apply lenN_0 in Hl. subst c. left. exists bv. auto.
+    + destruct Hspec as [-> _]. right. exists c. subst size. auto.
+    + destruct Hspec as [-> _]. right. exists c. subst size. auto.
+Qed.
+
+Lemma raw_lst_inv i v s' :
+  bytesb i = true -> raw_ (lst i) = Ok (v, s') -> exists i', i = v ++ i' /\ s' = lst i' /\ raw_value v.
+Proof.
+  intros Hb. unfold raw_.
+  destruct (kind_ (lst i)) as [[[[k size] bv] s1]|] eqn:E; [|discriminate].
+  destruct (kind_lst_inv _ _ _ _ _ Hb E) as (h & i1 & -> & -> & Hh & H64 & Hspec & Hsz).
+  destruct k.
+  - intros E2; inversion E2; subst. exists i1. pose proof Hspec as Hs. cbn in Hs.
+    destruct Hs as (-> & Hbv & ->). split; [reflexivity|]. split; [reflexivity|].
+    left. exists bv. auto.
+  - destruct (read_full size (lst i1)) as [[c s2]|] eqn:E3; [|discriminate].
+    destruct (read_full_lst_inv _ _ _ _ E3) as (i2 & -> & Hl & ->).
+    intros E2; inversion E2; subst v s'. exists i2. cbn in Hspec. destruct Hspec as [-> _].
+    split; [rewrite app_assoc; reflexivity|]. split; [reflexivity|].
+    right. exists c. rewrite Hl. auto.
+  - destruct (read_full size (lst i1)) as [[c s2]|] eqn:E3; [|discriminate].
+    destruct (read_full_lst_inv _ _ _ _ E3) as (i2 & -> & Hl & ->).
+    intros E2; inversion E2; subst v s'. exists i2. cbn in Hspec. destruct Hspec as [-> _].
+    split; [rewrite app_assoc; reflexivity|]. split; [reflexivity|].
+    right. exists c. rewrite Hl. auto.
+Qed.
+
+Lemma raw_lst_ok v i' : raw_value v -> raw_ (lst (v ++ i')) = Ok (v, lst i').
+Proof.
+  intros Hv. apply raw_value_frame in Hv as (k & size & bv & h & c & Hspec & H64 & Hl & ->).
+  unfold raw_. rewrite <- app_assoc. rewrite (kind_lst_ok k size bv h c i' Hspec H64 Hl).
+  destruct k; cbn [hdr_spec] in Hspec.
+  - destruct Hspec as (-> & _ & ->). apply lenN_0 in Hl. subst c. reflexivity.
+  - destruct Hspec as [-> _]. rewrite <- Hl, read_full_lst_ok. reflexivity.
+  - destruct Hspec as [-> _]. rewrite <- Hl, read_full_lst_ok. reflexivity.
+Qed.
+
+(* ---------- the key/value loop ---------- *)
+
+Definition pairs_enc (l : list (list N * list N)) : list N :=
+  flat_map (fun kv => enc_str (fst kv) ++ snd kv) l.
+
+Lemma pairs_inv f : forall prev i l s',
+  bytesb i = true -> pairs_ f prev (lst i) = EOk (l, s') ->
+  exists i', i = pairs_enc l ++ i' /\ s' = lst i' /\
+             Forall (fun kv => raw_value (snd kv)) l /\ chain prev (map fst l).
+Proof.
+  induction f as [|f IH]; intros prev i l s' Hb; cbn [pairs_]; [discriminate|].
+  destruct (byteslice_ (lst i)) as [[k s1]|e] eqn:E1.
+  2:{ destruct e; try discriminate. intros E; inversion E; subst. exists i.
+      split; [reflexivity|]. split; [reflexivity|]. split; [constructor|exact I]. }
+  destruct (byteslice_lst_inv _ _ _ Hb E1) as (i1 & -> & ->).
+  pose proof (bytesb_app_r _ _ Hb) as Hb1.
+  destruct (raw_ (lst i1)) as [[v s2]|e] eqn:E2; [|destruct e; discriminate].
+  destruct (raw_lst_inv _ _ _ Hb1 E2) as (i2 & -> & -> & Hv).
+  pose proof (bytesb_app_r _ _ Hb1) as Hb2.
+  assert (Hcont : match prev with None => True | Some p => bytes_ltb p k = true end ->
+          match pairs_ f (Some k) (lst i2) with
+          | EOk (l0, s3) => EOk ((k, v) :: l0, s3)
+          | EErr e => EErr e
+          end = EOk (l, s') ->
+          exists i', enc_str k ++ v ++ i2 = pairs_enc l ++ i' /\ s' = lst i' /\
+             Forall (fun kv => raw_value (snd kv)) l /\ chain prev (map fst l)).
+  { intros Hp. destruct (pairs_ f (Some k) (lst i2)) as [[l0 s3]|] eqn:E3; [|discriminate].
+    intros E; inversion E; subst l s'.
+    destruct (IH _ _ _ _ Hb2 E3) as (i' & -> & -> & Hf & Hc). exists i'.
+    split; [cbn [pairs_enc flat_map fst snd]; rewrite <- !app_assoc; reflexivity|].
+    split; [reflexivity|]. split; [constructor; [exact Hv|exact Hf]|].
+    cbn [map fst chain]. split; [exact Hp|exact Hc]. }
+  destruct prev as [p|]; [|apply Hcont; exact I].
+  destruct (bytes_eqb k p) eqn:Eq1; [discriminate|].
+  destruct (bytes_ltb k p) eqn:Lt1; [discriminate|].
+  apply Hcont. apply order_check. split; assumption.
+Qed.
+
+Lemma pairs_ok l : forall f prev,
+  Forall (fun kv => raw_value (snd kv)) l -> chain prev (map fst l) ->
+  lenN (pairs_enc l) < W64 -> (length l < f)%nat ->
+  pairs_ f prev (lst (pairs_enc l)) = EOk (l, lst []).
+Proof.
+  induction l as [|[k v] l IH]; intros f prev Hf Hc H64 Hfuel.
+  - destruct f; [lia|]. reflexivity.
+  - destruct f; [cbn in Hfuel; lia|]. inversion Hf as [|? ? Hv Hf']; subst. cbn [snd] in Hv.
+    cbn [map fst chain] in Hc. destruct Hc as [Hp Hc].
+    cbn [pairs_enc flat_map fst snd] in *. fold (pairs_enc l) in *.
+    rewrite !lenN_app in H64. cbn [pairs_]. rewrite <- app_assoc.
+    assert (Hk64 : lenN k < W64).
+    { destruct k as [|x [|y t]]; cbn [enc_str] in H64; try (destruct (x <? 128));
+        rewrite ?lenN_app in H64; try lia; cbn; unfold W64; lia. }
+    rewrite (byteslice_lst_ok k _ Hk64), (raw_lst_ok v _ Hv).
+    rewrite (IH f (Some k) Hf' Hc ltac:(lia) ltac:(cbn in Hfuel; lia)).
+    destruct prev as [p|]; [|reflexivity].
+    apply order_check in Hp as [-> ->]. reflexivity.
+Qed.
+
+Lemma enc_str_len_pos k : (1 <= length (enc_str k))%nat.
+Proof.
+  pose proof (enc_len_pos (Str k)) as H. cbn [enc] in H. unfold lenN in H. lia.
+Qed.
+
+(* the fuel of decode_record is never exhausted *)
+Lemma pairs_enc_len l : (length l <= length (pairs_enc l))%nat.
+Proof.
+  induction l as [|[k v] l IH]; [cbn; lia|].
+  cbn [pairs_enc flat_map fst snd length]. fold (pairs_enc l). rewrite !app_length.
+  pose proof (enc_str_len_pos k). lia.
+Qed.
+
+(* ---------- decodeRecord / DecodeBytes ---------- *)
+
+Lemma raw_init_inv b v s' :
+  bytesb b = true -> raw_ (init b) = Ok (v, s') ->
+  b = v ++ inp s' /\
+  exists k size bv h c, hdr_spec k size bv h /\ size < W64 /\ lenN c = size /\ v = h ++ c.
+Proof.
+  intros Hb. unfold raw_.
+  destruct (kind_ (init b)) as [[[[k size] bv] s1]|] eqn:E; [|discriminate].
+  destruct (kind_inv (init b) _ _ _ _ Hb E) as (h & Hi & _ & _ & _ & H64 & Hspec & _ & _).
+  cbn [inp init] in Hi. destruct k.
+  - intros E2; inversion E2; subst v s'. pose proof Hspec as Hs. cbn in Hs. destruct Hs as (-> & _ & ->).
+    split; [exact Hi|]. exists KByte, 0, bv, [bv], []. rewrite app_nil_r. auto.
+  - destruct (read_full size s1) as [[c s2]|] eqn:E3; [|discriminate].
+    apply read_full_inv in E3 as (_ & Hi2 & Hl & _).
+    intros E2; inversion E2; subst v s'. pose proof Hspec as Hs. cbn in Hs. destruct Hs as [-> _].
+    split; [rewrite Hi, Hi2, app_assoc; reflexivity|].
+    exists KString, size, bv, (enc_head 128 183 size), c. auto.
+  - destruct (read_full size s1) as [[c s2]|] eqn:E3; [|discriminate].
+    apply read_full_inv in E3 as (_ & Hi2 & Hl & _).
+    intros E2; inversion E2; subst v s'. pose proof Hspec as Hs. cbn in Hs. destruct Hs as [-> _].
+    split; [rewrite Hi, Hi2, app_assoc; reflexivity|].
+    exists KList, size, bv, (enc_head 192 247 size), c. auto.
+Qed.
+
+(* the inner stream: Kind() on the re-framed record, then List() *)
+Lemma inner_kind k size bv h c :
+  hdr_spec k size bv h -> size < W64 -> lenN c = size ->
+  kind_ (init (h ++ c)) = Ok (k, size, bv, adv (lenN h) (c ++ []) (init (h ++ c))).
+Proof.
+  intros Hspec H64 Hl. apply (kind_frame_ok (init (h ++ c)) k size bv h c [] Hspec H64 Hl).
+  - unfold room, init. cbn. split; [lia|exact I].
+  - cbn [inp init]. rewrite app_nil_r. reflexivity.
+Qed.
+
+Lemma inner_list size h c :
+  lenN c = size -> list_ size (adv (lenN h) (c ++ []) (init (h ++ c))) = lst c.
+Proof.
+  intros Hl. unfold list_, adv, init, lst. cbn [stack sub_top inp rem].
+  rewrite app_nil_r, lenN_app. subst size. f_equal. lia.
+Qed.
+
+Lemma enc_str_len_ge b : lenN b <= lenN (enc_str b).
+Proof.
+  destruct b as [|x [|y t]]; cbn [enc_str]; try (destruct (x <? 128)); rewrite ?lenN_app; try lia.
+Qed.
+
+Lemma decode_sound b r :
+  bytesb b = true -> decode b = EOk r ->
+  b = encode r /\ r_raw r = b /\ lenN b <= 300 /\ rec_ok r /\ sortedb (keys r) = true.
+Proof.
+  intros Hb. unfold decode, decode_record.
+  destruct (raw_ (init b)) as [[raw s1]|] eqn:E0; [|discriminate].
+  destruct (raw_init_inv _ _ _ Hb E0) as (Hsplit & k & size & bv & h & c & Hspec & H64 & Hl & ->).
+  unfold SizeLimit. destruct (N.ltb_spec 300 (lenN (h ++ c))) as [|Hsz]; [discriminate|].
+  assert (Hbr : bytesb (h ++ c) = true) by (rewrite Hsplit in Hb; eapply bytesb_app_l; eauto).
+  rewrite (inner_kind k size bv h c Hspec H64 Hl).
+  destruct k; try discriminate. rewrite (inner_list size h c Hl).
+  cbn in Hspec. destruct Hspec as [-> _].
+  pose proof (bytesb_app_r _ _ Hbr) as Hbc.
+  destruct (byteslice_ (lst c)) as [[sig s3]|e] eqn:E1; [|destruct e; discriminate].
+  destruct (byteslice_lst_inv _ _ _ Hbc E1) as (i3 & -> & ->).
+  pose proof (bytesb_app_r _ _ Hbc) as Hb3.
+  destruct (uint_ 64 (lst i3)) as [[seq s4]|e] eqn:E2; [|destruct e; discriminate].
+  destruct (uint_lst_inv _ _ _ Hb3 E2) as (i4 & -> & -> & Hseq).
+  pose proof (bytesb_app_r _ _ Hb3) as Hb4.
+  destruct (pairs_ _ None (lst i4)) as [[ps s5]|] eqn:E3; [|discriminate].
+  destruct (pairs_inv _ _ _ _ _ Hb4 E3) as (i5 & -> & -> & Hvals & Hchain).
+  destruct (list_end (lst i5)) as [s6|] eqn:E4; [|discriminate].
+  apply list_end_inv in E4 as (tl & Hst & _). cbn [stack lst] in Hst. inversion Hst as [Hz].
+  apply lenN_0 in Hz. subst i5.
+  destruct (inp s1) as [|? ?] eqn:Ei; [|discriminate].
+  intros E; inversion E; subst r. rewrite app_nil_r in Hsplit.
+  unfold encode, encode_fields, content_enc, rec_ok, keys. cbn [r_raw r_seq r_pairs r_sig].
+  fold (pairs_enc ps). rewrite app_nil_r in *. subst size.
+  split; [exact Hsplit|]. split; [symmetry; exact Hsplit|].
+  split; [rewrite Hsplit; exact Hsz|].
+  split; [split; [exact Hseq|exact Hvals]|]. apply sortedb_chain. exact Hchain.
+Qed.
+
+Lemma decode_complete r :
+  r_raw r = encode r -> lenN (encode r) <= 300 -> rec_ok r -> sortedb (keys r) = true ->
+  decode (encode r) = EOk r.
+Proof.
+  destruct r as [sig seq ps raw]. unfold encode, rec_ok, keys. cbn [r_raw r_seq r_pairs r_sig].
+  intros -> Hsz [Hseq Hvals] Hsorted. unfold encode_fields in *.
+  change (content_enc seq ps) with (enc_uint seq ++ pairs_enc ps) in *.
+  set (c := enc_str sig ++ enc_uint seq ++ pairs_enc ps) in *.
+  set (h := enc_head 192 247 (lenN c)) in *.
+  assert (Hc : lenN c <= 300) by (rewrite lenN_app in Hsz; lia).
+  assert (H64 : lenN c < W64) by (unfold W64; lia).
+  assert (Hspec : hdr_spec KList (lenN c) 0 h) by (cbn; auto).
+  unfold decode, decode_record, raw_.
+  rewrite (inner_kind KList (lenN c) 0 h c Hspec H64 eq_refl).
+  set (s1 := adv (lenN h) (c ++ []) (init (h ++ c))).
+  rewrite (read_full_ok s1 c []);
+    [|unfold room, s1, adv, init; cbn; rewrite lenN_app; split; [lia|exact I]|reflexivity].
+  fold h. unfold SizeLimit. destruct (N.ltb_spec 300 (lenN (h ++ c))); [lia|].
+  rewrite (inner_kind KList (lenN c) 0 h c Hspec H64 eq_refl). fold s1.
+  unfold s1 at 1. rewrite (inner_list (lenN c) h c eq_refl).
+  unfold c at 1. rewrite (byteslice_lst_ok sig).
+  2:{ pose proof (enc_str_len_ge sig). unfold c in Hc. rewrite lenN_app in Hc. unfold W64. lia. }
+  rewrite (uint_lst_ok seq _ Hseq).
+  rewrite (pairs_ok ps (S (length (h ++ c))) None Hvals).
+  - cbn [list_end lst stack]. change (0 <? lenN []) with false. cbn iota. reflexivity.
+  - apply sortedb_chain. exact Hsorted.
+  - unfold c in Hc. rewrite !lenN_app in Hc. unfold W64. lia.
+  - pose proof (pairs_enc_len ps). unfold c. rewrite !app_length. lia.
+Qed.
+
+Theorem decode_iff b r :
+  bytesb b = true ->
+  (decode b = EOk r <->
+   b = encode r /\ r_raw r = b /\ lenN b <= 300 /\ rec_ok r /\ sortedb (keys r) = true).
+Proof.
+  intros Hb. split; [apply decode_sound; exact Hb|].
+  intros (-> & Hraw & Hsz & Hok & Hs). apply decode_complete; assumption.
+Qed.
+
+(* ---------- identity scheme ---------- *)
+
+Section Scheme.
+  Variable H : list N -> list N.
+  Variable verify : list N -> list N -> list N -> bool.
+
+  (* the signature clause, spelled out: the "id" entry is the string "v4", the
+     "secp256k1" entry is a 33-byte string pk, and the signature verifies under
+     pk for the hash of rlp([seq, k1, v1, ...]) *)
+  Definition sig_valid (r : record) : Prop :=
+    load_bytes key_id r = EOk scheme_v4 /\
+    exists pk, load_bytes key_secp256k1 r = EOk pk /\ lenN pk = 33 /\
+               verify pk (H (signed_content r)) (r_sig r) = true.
+
+  Lemma bytes_eqb_eq a b : bytes_eqb a b = true <-> a = b.
+  Proof.
+    unfold bytes_eqb. split.
+    - destruct (bytes_cmp a b) eqn:E; try discriminate. intros _. apply bytes_cmp_eq. exact E.
+    - intros ->. rewrite bytes_cmp_refl. reflexivity.
+  Qed.
+
+  Lemma new_node_iff r : new_node H verify r = EOk tt <-> sig_valid r.
+  Proof.
+    unfold new_node, scheme_verify, v4_verify, identity_scheme, sig_valid. split.
+    - destruct (bytes_eqb _ scheme_v4) eqn:Eid; [|discriminate].
+      apply bytes_eqb_eq in Eid.
+      destruct (load_bytes key_id r) as [idv|] eqn:E1; [|discriminate]. subst idv.
+      destruct (load_bytes key_secp256k1 r) as [pk|] eqn:E2; [|discriminate].
+      destruct (N.eqb_spec (lenN pk) 33); [|discriminate].
+      destruct (verify pk _ _) eqn:Ev; [|discriminate].
+      intros _. split; [reflexivity|]. exists pk. auto.
+    - intros (-> & pk & -> & Hl & Hv). change (bytes_eqb scheme_v4 scheme_v4) with true. cbn iota.
+      rewrite Hl. cbn. rewrite Hv. reflexivity.
+  Qed.
+
+  Theorem accept_iff b r :
+    bytesb b = true ->
+    (accept H verify b = EOk r <->
+     b = encode r /\ r_raw r = b /\ lenN b <= 300 /\ rec_ok r /\
+     sortedb (keys r) = true /\ sig_valid r).
+  Proof.
+    intros Hb. unfold accept. split.
+    - destruct (decode b) as [r'|] eqn:Ed; [|discriminate].
+      destruct (new_node H verify r') as [[]|] eqn:En; [|discriminate].
+      intros E; inversion E; subst r'.
+      apply (decode_iff b r Hb) in Ed as (? & ? & ? & ? & ?). apply new_node_iff in En.
+      repeat (split; [assumption|]). exact En.
+    - intros (? & ? & ? & ? & ? & Hv).
+      assert (Ed : decode b = EOk r) by (apply (decode_iff b r Hb); auto).
+      rewrite Ed. apply new_node_iff in Hv. rewrite Hv. reflexivity.
+  Qed.
+
+  Theorem reencode_identical b r :
+    bytesb b = true -> accept H verify b = EOk r -> encode r = b /\ encode_rlp r = b.
+  Proof.
+    intros Hb Ha. apply (accept_iff b r Hb) in Ha as (? & ? & _). split; [auto|assumption].
+  Qed.
+
+  (* accepted records have unique keys *)
+  Theorem accepted_keys_unique b r :
+    bytesb b = true -> accept H verify b = EOk r -> NoDup (keys r).
+  Proof.
+    intros Hb Ha. apply (accept_iff b r Hb) in Ha as (_ & _ & _ & _ & Hs & _).
+    apply sortedb_chain in Hs. apply (chain_NoDup _ _ Hs).
+  Qed.
+End Scheme.
+
+(* decode never reports the model's own fuel error, on any input *)
+Lemma decode_two_encodings b1 b2 r1 r2 :
+  bytesb b1 = true -> bytesb b2 = true -> decode b1 = EOk r1 -> decode b2 = EOk r2 ->
+  r_sig r1 = r_sig r2 -> r_seq r1 = r_seq r2 -> r_pairs r1 = r_pairs r2 -> b1 = b2.
+Proof.
+  intros H1 H2 D1 D2 Es Eq Ep.
+  apply (decode_iff _ _ H1) in D1 as (-> & _). apply (decode_iff _ _ H2) in D2 as (-> & _).
+  unfold encode. rewrite Es, Eq, Ep. reflexivity.
+Qed.
